@@ -19,6 +19,10 @@ Inductive ctxd := DCancelOfCtx | DCancelOfWithoutCancel | DCancelOfBackground.
 (* context.WithCancel(ctx) / WithCancel(context.WithoutCancel(ctx)) / WithCancel(context.Background()) *)
 Inductive risshape := RIfStaleUnlock | RIfNotStaleUnlock | RAlwaysUnlock | RNeverUnlock.
 Inductive tlerr := TLLocked | TLStaleLock.                   (* commonerrors.ErrLocked / ErrStaleLock *)
+(* statements of VFS.WriteToFile that touch the back end, in order (files.go) *)
+Inductive wstmt := WOpen | WDeferClose | WCopy | WSync | WClose.
+(* kinds of backend operations as the shim sees them *)
+Inductive bopk := BOpenFile | BWrite | BClose | BChtimes | BSync | BStat | BOther.
 Inductive xcancel := XAction | XTimeout | XStore.            (* actionCancel() / timeoutCancel() / store.Cancel() *)
 
 Record facts := mkFacts {
@@ -53,6 +57,7 @@ Record facts := mkFacts {
   f_hb_chtimes_arg : targ;
   f_hb_sleep_with_ctx : bool;      (* parallelisation.SleepWithContext(ctx, ...) *)
   f_hb_sleep_slack_ns : Z;         (* ... period - SLACK *)
+  f_wtf_ops : list wstmt;          (* fs.WriteFile -> WriteFileWithContext -> WriteToFile: open, deferred close, copy, close *)
   (* TryLock *)
   f_tl_mkdir : bool;               (* l.fs.vfs.Mkdir(lockPath, ...)  (not MkdirAll) *)
   f_tl_stale_test : bool;          (* on ErrExists: `if l.IsStale() {`   (false: negated) *)
